@@ -141,8 +141,10 @@ def body_read(sel: int) -> bool:
     out = []
     if layout:
         out += ["# options generated by the harness", ""]
-    if opt:
-        out.append(f"FastCoherentSum::UseCartesian {opt - 1}")
+    opt_line = f"FastCoherentSum::UseCartesian {opt - 1}" if opt else None
+    opt_pos = (sel // 7) % 3                       # the option may stand before, between or after the decay lines
+    if opt_line and opt_pos == 0:
+        out.append(opt_line)
     out.append("EventType D0 K- pi+ pi+ pi-")
     params, consts = [], []
     if tabs >= 1:
@@ -157,7 +159,8 @@ def body_read(sel: int) -> bool:
         coup[i] = c
         allt.append(t)
         lines_txt.append(show(t) + ("   " if layout else " ") + " ".join(c) + ("   # line %d" % i if layout and i % 2 else ""))
-    body = lines_txt[:1] + [" ".join(p) for p in params[:2]] + lines_txt[1:] + [" ".join(p) for p in params[2:]] + [" ".join(c) for c in consts]
+    body = lines_txt[:1] + [" ".join(p) for p in params[:2]] + ([opt_line] if opt_line and opt_pos == 1 else []) + lines_txt[1:] + \
+        [" ".join(p) for p in params[2:]] + [" ".join(c) for c in consts] + ([opt_line] if opt_line and opt_pos == 2 else [])
     if layout:
         body = [x for b in body for x in (b, "")]
     text = "\n".join(out + body) + "\n"
